@@ -15,6 +15,7 @@ PROPS = {
     'C19': {'units': ['run19'], 'kani': K_CONTEXT},
     'C20': {'units': ['gad'], 'kani': []},
     'C05': {'units': ['chal'], 'kani': []},
+    'C15': {'units': ['shape'], 'kani': []},
 }
 
 TB_COMMON = ['p3 field types satisfy the field laws the lemmas name; machine field arithmetic treated as mathematical',
@@ -76,8 +77,20 @@ META['C05'] = {
             'the native model is a transcription; RATE <= 255 (length tag is a byte). Not decided here: equality of sample_bits with the native as_canonical_u64 & mask (needs C12).',
 }
 
+META['C15'] = {
+    'technique': 'Verus contracts + Verus-generated no-panic obligations on extracted real validation code, no precondition on prover-controlled lengths',
+    'text': 'Deductive proof that shape validation is total and exact: validate_proof_shape returns Ok if and only if the opened-values shape is the well-formed one '
+            '(every list length, every chunk width, the ZK random opening) and otherwise Err(InvalidProofShape); the validation prefix of verify_fri_circuit returns Ok only '
+            'with every length the fold/query code later indexes with (per-query opening counts, per-phase log_arity and sibling-coefficient counts, index-bit widths, final '
+            'polynomial length), and no index, subtraction or slice in it can panic for ANY list lengths; CommitPhaseProofStepTargets::new is checked with an arbitrary proof-supplied byte. '
+            'The shift/multiply obligations on proof-supplied widths fail and are the recorded finding C15-shift-widths.',
+    'note': 'Kernel: validate_proof_shape (stark.rs), validation prefix of verify_fri_circuit (R13 prefix extraction), CommitPhaseProofStepTargets::new. Not yet under contract: '
+            'the per-instance loop of verify_batch_circuit (its unchecked lookup_terminals index was found by reading and fixed: F3), MMCS cap/path split, panics inside p3 dependencies. '
+            'Assumed: 64-bit usize, log_arities entries originate from a u8, realistic proof sizes (< 2^32 phases, extension degree < 2^16). Error message strings dropped.',
+}
+
 NOT_APPLICABLE = {
     'C01': 'whole-verifier equivalence with the external native verifier (p3-uni-stark / p3-batch-stark): needs a relational spec of ~1.5 kLoC of dependency code across four generic traits; no per-function contract within reach expresses it. Its parts are decided under C05/C07/C08/C13/C14/C15/C20.',
 }
-for _p in ['C04', 'C06', 'C07', 'C08', 'C09', 'C10', 'C11', 'C12', 'C13', 'C14', 'C15', 'C16', 'C17', 'C18']:
+for _p in ['C04', 'C06', 'C07', 'C08', 'C09', 'C10', 'C11', 'C12', 'C13', 'C14', 'C16', 'C17', 'C18']:
     NOT_APPLICABLE.setdefault(_p, 'not reached yet: kernel designed in DESIGN.md §5 but its contracts are not built; not claimed')
